@@ -1,5 +1,5 @@
 (* C14 — Every reachable tree is engine-consistent and structurally well-formed. *)
-From DR Require Import Model.Reach Proofs.BuildLaws Proofs.ReachLaws Proofs.SqlRules Proofs.BacktrackLaws Proofs.SqlBuild Proofs.MultiIter.
+From DR Require Import Model.Reach Proofs.BuildLaws Proofs.ReachLaws Proofs.SqlRules Proofs.BacktrackLaws Proofs.SqlBuild Proofs.MultiIter Proofs.JoinBacktrack.
 
 (* iteration-engine programs of any length: the built tree is node-locally well-formed — every
    operation's required columns are present, calculated tags are fresh, chain operands agree on
@@ -37,3 +37,26 @@ Proof. exact noop_sort_returns_self. Qed.
 Theorem C14_transfer_to_own_engine_returns_self : forall t,
   api_relation t -> transfer_e (engine_of t) t = Ok t.
 Proof. exact transfer_to_own_engine_returns_self. Qed.
+
+(* PartialJoin._begin_apply hands on a join whose common columns are resolved (minimum = maximum) whatever minimum and
+   maximum the caller gave (Join(min_columns=…, max_columns=…).partial(fixed).apply(target)): they hold the minimum, lie
+   within the maximum, and are columns of both operands — so every join node built from it has resolved common columns
+   that both operands have *)
+Theorem C14_partial_join_resolves_common_columns : forall j f lhs t pref r' e,
+  j_min j ⊆ columns f ->
+  req_begin (RJoin j f lhs) t pref = Ok (r', e) ->
+  exists c, r' = RJoin (JSpec (j_pred j) c (Some c)) f lhs /\ j_resolved (JSpec (j_pred j) c (Some c)) = true /\
+       j_min j ⊆ c /\ c ⊆ columns f /\ c ⊆ columns t /\ (forall m, j_max j = Some m -> c ⊆ m) /\
+       cols_p (j_pred j) ⊆ columns t ∪ columns f.
+Proof. exact req_begin_join_resolved. Qed.
+
+(* non-vacuity: minimum {a}, maximum {a, c} over operands sharing the key columns a and b: resolved to {a} *)
+Example C14_explicit_common_columns_resolved :
+  let a := 2%positive in let b := 4%positive in let c := 6%positive in let d := 8%positive in
+  let t := Leaf 1 (Eng KSql 0) (mkset [a; b; c]) 0 None in
+  let f := Leaf 2 (Eng KSql 0) (mkset [a; b; d]) 0 None in
+  match req_begin (RJoin (JSpec (PLit true) (mkset [a]) (Some (mkset [a; c]))) f false) t None with
+  | Ok (RJoin j' _ _, _) => bool_decide (j_min j' = mkset [a]) && j_resolved j'
+  | _ => false
+  end = true.
+Proof. vm_compute. reflexivity. Qed.
